@@ -42,7 +42,9 @@ LEVEL_TEXT = ('Real Envelope.parse/flatten/copy/pickle/encode_7bit run on seeded
               'body bytes), on arbitrary byte strings for the no-raise claim, and on single-part UTF-8 text/plain '
               'messages for the 7-bit clause; every message is compared with what the generator built, through an '
               'independent header splitter. The same messages (incl. a value that starts on a continuation line, '
-              'top-level multipart/* / message/* / delivery-status content types over MIME-looking bodies, bodies > 8 KiB) '
+              'top-level multipart/* / message/* / delivery-status content types over MIME-looking bodies, bodies > 8 KiB; '
+              'plus a few dozen header blocks of 70-200 KiB -- many short fields, a few long folded fields, one field with '
+              'thousands of continuation lines -- over LF / mixed / lone-CR / leading-blank / unterminated bodies) '
               'also go through pickle protocols 2-5, Envelope(headers=<stdlib Message>, message=body), parse_msg, '
               'encode_7bit() without encoder, one or two header rewrites (prepend_header, Message API assignment / '
               'deletion / replacement / reading, the three Add*Header policies) each followed by flatten + copy + '
@@ -82,7 +84,7 @@ ASSUMPTIONS = ['"same values" is compared on unfolded values (line break before 
                '(items(), get()) are counted, not judged: the statement promises parse/flatten/copy/pickle']
 REQUIRED_HITS = ['body-compared', 'header-fields-compared', 'copy-compared', 'pickle-compared', 'reparse-compared',
                  'no-raise-judged', '7bit-ascii-and-text-compared', '7bit-refusal-judged',
-                 'presplit-compared', 'parse-msg-compared', 'wf-7bit-judged', 'rewrite-compared', 'rewrite-reparse-compared',
+                 'big-header-block-compared', 'presplit-compared', 'parse-msg-compared', 'wf-7bit-judged', 'rewrite-compared', 'rewrite-reparse-compared',
                  'bounce-embed-compared']
 SHARDS = {'quick': 8, 'thorough': 16}
 BUDGET = {'quick': 50, 'thorough': 800}
@@ -90,6 +92,7 @@ BUDGET = {'quick': 50, 'thorough': 800}
 N_WF = {'quick': 20000, 'thorough': 1000000}
 N_ARB = {'quick': 6000, 'thorough': 200000}
 N_7BIT = {'quick': 1500, 'thorough': 40000}
+N_BIG = {'quick': 40, 'thorough': 480}
 
 
 # --------------------------------------------------------------------------- independent splitter
@@ -305,7 +308,64 @@ def gen_mime_body(rnd):
     return gen_body(rnd)
 
 
-def gen_wf(rnd):
+BIG_BODIES = [b'unix body\nsecond line\n', b'\r\n\r\nleading blank lines\r\n', b'\n\nleading blank lines\n', b'lone\rcr\r\n',
+              b'mixed\r\nline\nends\r\n', b'line\nno final newline', b'\n', b'\r', b'\n.\n..\n', b'crlf\r\nonly\r\n', b'',
+              b'\r\n', b'x\r\r\ny', b'\x00\xff\nnul and 8-bit\n']
+
+
+def gen_big_fields(rnd):
+    """A well-formed header block of 70..200 KiB, every line <= 78 bytes: many short fields, a few fields with
+    hundreds of continuation lines each, or one field with thousands of continuation lines."""
+    style = rnd.choice(['many-short-fields', 'few-long-folded-fields', 'one-field-thousands-of-lines'])
+    target = rnd.choice([70, 100, 130, 200]) * 1024
+    fields, size = [], 0
+
+    def alpha():
+        return rnd.choice([True, True, False, 'usep'])
+
+    def field(name, ncont, maxlen, nbytes=0):
+        sep = b': ' if rnd.random() < 0.85 else b':'
+        a = alpha()
+        lines = [gen_line(rnd, min(maxlen, 78 - len(name) - len(sep)), a)]
+        got = 0
+        while len(lines) <= ncont or got < nbytes:
+            ws = rnd.choice([b' ', b'\t', b'  '])
+            lines.append(ws + gen_line(rnd, min(maxlen, 78 - len(ws)), a))
+            got += len(lines[-1]) + 1
+        return (name, sep, lines)
+
+    if style == 'many-short-fields':
+        while size < target:
+            name = rnd.choice([b'X-H%d' % len(fields), b'Received', b'X-Dup', rnd.choice(NAMES)])
+            f = field(name, rnd.choice([0, 0, 0, 1]), rnd.choice([30, 60, 76]))
+            fields.append(f)
+            size += len(f[0]) + sum(len(x) + 1 for x in f[2]) + 1
+    elif style == 'few-long-folded-fields':
+        n = rnd.choice([2, 3, 5, 8])
+        for k in range(n):
+            fields.append(field(rnd.choice([b'DKIM-Signature', b'To', b'X-Long-%d' % k, b'References']), 1, 76, target // n))
+    else:
+        fields.append(field(b'Subject', 0, 40))
+        fields.append(field(rnd.choice([b'To', b'X-Many-Lines', b'References']), 2000, 50, target))
+        fields.append(field(b'X-After', 1, 40))
+    return style, fields
+
+
+def gen_wf_big(rnd):
+    style, fields = gen_big_fields(rnd)
+    body = rnd.choice(BIG_BODIES) if rnd.random() < 0.85 else gen_body(rnd)
+    eolstyle = rnd.choice([b'\r\n', b'\r\n', b'\n', b'\n', 'mixed'])
+    case = gen_wf(rnd, fields=fields, body=body, eolstyle=eolstyle)
+    case['feats']['bighdr'] = style
+    case['extra'] = False
+    return case
+
+
+def gen_wf(rnd, fields=None, body=None, eolstyle=None):
+    if fields is not None:
+        block, blank = render(fields, eolstyle, rnd)
+        mime, raw, shape = False, block + blank + body, 'normal'
+        return finish_wf(rnd, fields, raw, body, shape, mime, eolstyle)
     fields = gen_fields(rnd)
     mime = rnd.random() < 0.08
     if mime:
@@ -325,6 +385,10 @@ def gen_wf(rnd):
         raw, body, shape = block, b'', 'no-blank-line'
     else:
         raw, shape = block + blank + body, 'normal'
+    return finish_wf(rnd, fields, raw, body, shape, mime, eolstyle)
+
+
+def finish_wf(rnd, fields, raw, body, shape, mime, eolstyle):
     expect = [[name, b''.join(lines).lstrip(b' \t')] for name, sep, lines in fields]
     feats = {
         'mime': mime,
@@ -518,7 +582,12 @@ def gen_cases(tier, seed, shard, nshards):
     # interleave so that a budget cut still leaves every kind exercised
     left = dict(plan)
     total = sum(left.values())
+    big = random.Random('c20-big-%d-%d-%s' % (seed, shard, tier))      # own stream: the other cases stay the same
+    nbig = N_BIG[tier] // nshards
     for i in range(total):
+        if i % 150 == 40 and i // 150 < nbig:
+            # header blocks of 70..200 KiB (each costs ~0.2 s): a few dozen per run, early in the shard
+            yield gen_wf_big(big)
         r = i % 20
         kind = '7bit' if r == 0 else 'arb' if r in (1, 2, 3, 4) else 'wf'
         if left[kind] <= 0:
@@ -587,8 +656,12 @@ def run_wf(case, R):
             R.observe('unicode-separator-in-judged-value', x)
     if feats.get('usep'):
         R.count('wf-messages-with-unicode-separator-in-a-value')
-    for pf in case['per_field']:
-        R.observe('field-shape', tuple(pf))
+    if feats.get('bighdr'):
+        blk_len = len(raw) - len(want_body)
+        R.observe('big-header-block', (feats['bighdr'], blk_len // 32768 * 32, feats['eol'], tuple(bc)))
+    else:
+        for pf in case['per_field']:
+            R.observe('field-shape', tuple(pf))
 
     def viol(mech, what, **kw):
         d = {'raw': raw, 'features': feats}
@@ -610,8 +683,11 @@ def run_wf(case, R):
         return
     # ---- body
     R.hit('body-compared')
+    if feats.get('bighdr'):
+        R.hit('big-header-block-compared')
     if b != want_body:
-        viol('flatten/body-differs/' + (bc[0] if bc else 'plain') + ('' if feats['shape'] == 'normal' else '/' + feats['shape']),
+        viol('flatten/body-differs/' + (bc[0] if bc else 'plain') + ('' if feats['shape'] == 'normal' else '/' + feats['shape'])
+             + ('/header-block-over-64k' if feats.get('bighdr') and len(raw) - len(want_body) > 65536 else ''),
              'body after the first blank line changed', got_body=b, want_body=want_body)
     # ---- header block
     R.hit('header-fields-compared')
